@@ -1581,7 +1581,8 @@ int hwloc_bitmap_compare_first(const struct hwloc_bitmap_s * set1, const struct 
 		}
 	}
 
-	return !!set1->infinite - !!set2->infinite;
+	/* only infinite parts remain, the one that is unset is empty hence higher */
+	return !!set2->infinite - !!set1->infinite;
 }
 
 int hwloc_bitmap_compare(const struct hwloc_bitmap_s * set1, const struct hwloc_bitmap_s * set2)
